@@ -1,6 +1,7 @@
 import AasVerif.Model.Expr.Wire
 import AasVerif.Model.Expr.Eval
 import AasVerif.Model.SdkVerify
+import AasVerif.Model.PyEmit
 /-!
 Line protocol of C08.
 
@@ -263,7 +264,82 @@ def encVRes (r : VRes) : String :=
     | some o => ["raise " ++ encOut o]
   " ".intercalate (es ++ tail)
 
+/-! ### transpiler -/
+open AasVerif.PyEmit in
+def pCfg : P Cfg := fun ts => do
+  let (names, ts) ← pCounted (fun ts => do
+    let (n, ts) ← pText ts
+    match ts with
+    | "c" :: ts => some ((n, NameKind.const), ts)
+    | "f" :: ts => some ((n, NameKind.fn), ts)
+    | "e" :: ts => some ((n, NameKind.enum), ts)
+    | _ => none) ts
+  let (members, ts) ← pCounted (fun ts => do
+    let (e, ts) ← Expr.Wire.pExpr ts
+    let (n, ts) ← pText ts
+    match ts with
+    | "P" :: ts => some ((Expr.Wire.enc e, n, some AttrKind.prop), ts)
+    | "L" :: ts => some ((Expr.Wire.enc e, n, some AttrKind.enumLit), ts)
+    | "M" :: ts => some ((Expr.Wire.enc e, n, some AttrKind.method), ts)
+    | "X" :: ts => some ((Expr.Wire.enc e, n, none), ts)
+    | _ => none) ts
+  let (funs, ts) ← pCounted (fun ts => do
+    let (n, ts) ← pText ts
+    match ts with
+    | "v" :: ts => some ((n, FunKind.verification), ts)
+    | "l" :: ts => some ((n, FunKind.builtinLen), ts)
+    | "o" :: ts => some ((n, FunKind.builtinOther), ts)
+    | _ => none) ts
+  some (⟨fun n => (names.find? (fun x => x.1 == n)).map (·.2),
+         fun e n => ((members.find? (fun x => x.1 == Expr.Wire.enc e && x.2.1 == n)).map (·.2.2)).join,
+         fun n => ((funs.find? (fun x => x.1 == n)).map (·.2)).getD .notFunction⟩, ts)
+
+open AasVerif.PyEmit in
+def encPyCmp : PyCmp → String
+  | .cmp c => Expr.Wire.encCmp c
+  | .in_ => "in" | .is_ => "is" | .isNot => "isnot"
+
+def b01 (b : Bool) : String := if b then "1" else "0"
+
+open AasVerif.PyEmit in
+mutual
+  partial def encPy : PyExpr → List String
+    | .that => ["T"]
+    | .var x => ["V", Text.enc x]
+    | .constRef x => ["C", Text.enc x]
+    | .enumRef x => ["E", Text.enc x]
+    | .funRef x => ["F", Text.enc x]
+    | .noneC => ["N"] | .tru => ["t"] | .fls => ["f"]
+    | .int n => ["I", toString n]
+    | .float r => ["D", Text.enc r]
+    | .str s => ["S", Text.enc s]
+    | .neg e => "-" :: encPy e
+    | .attr e k n => "A" :: encPy e ++ [match k with | .prop => "P" | .enumLit => "L" | .method => "M", Text.enc n]
+    | .subscript e i => "X" :: encPy e ++ encPy i
+    | .callMethod e m args => "M" :: encPy e ++ Text.enc m :: toString args.length :: args.flatMap encPy
+    | .callFun f args => "U" :: Text.enc f :: toString args.length :: args.flatMap encPy
+    | .compare l op r => "c" :: encPyCmp op :: encPy l ++ encPy r
+    | .not e => "!" :: encPy e
+    | .boolop a vals => "B" :: b01 a :: toString vals.length :: vals.flatMap encPy
+    | .binop a l r => "b" :: b01 a :: encPy l ++ encPy r
+    | .fstring ps => "J" :: toString ps.length :: ps.flatMap (fun p => match p with
+        | .lit s => ["l", Text.enc s]
+        | .fv e => "v" :: encPy e)
+    | .quant a elt x it => "Q" :: b01 a :: encPy elt ++ Text.enc x :: (match it with
+        | .each e => "e" :: encPy e
+        | .range a b => "r" :: encPy a ++ encPy b)
+    | .paren e => "P" :: encPy e
+end
+
 def handle : List String → Option String
+  | ["emit", cfg, top, e] => do
+    let cfg ← decAll pCfg cfg
+    let e ← Expr.Wire.dec e
+    let r := if top == "1" then PyEmit.transpileInvariant cfg e else PyEmit.transpile cfg [] e
+    match r with
+    | .ok x => some ("ok " ++ b01 (PyEmit.parenOK x) ++ " " ++ ",".intercalate (encPy x))
+    | .err => some "err"
+    | .crash => some "crash"
   | ["verify", w, v] => do
     let w ← decAll pWorld w
     let v ← decAll pVal v
